@@ -1782,7 +1782,8 @@ def coq_icase(parser, text, code, log):
         seen.add(k)
         fams.append('(%s, (%s, %s, %s))' % (label(lb), rule_term[r], opt(l), opt(rt)))
     toks = [tm(t[0]) for t in lexed]
-    return '(%s, %d, %s, %d, %s)' % (L(rules), nt('start'), L(['%d' % t for t in toks]), code, L(fams))
+    return '(%s, %d, %s, %d, %s)' % (L(rules), nt('start'), TL(['%d' % t for t in toks], 'nat'), code,
+                                     TL(fams, 'fam nat'))
 
 
 # ----------------------------------------------------------------------------------------------
@@ -1790,6 +1791,12 @@ def coq_icase(parser, text, code, log):
 # ----------------------------------------------------------------------------------------------
 IMPORTS_D = ('From LV Require Import Cfg.Grammar Earley.Spec Earley.Alg Earley.AlgCheck Earley.Dyn Earley.DynCheck '
              'Forest.ExplicitBuild Forest.ExplicitAlgBuild Forest.ExplicitDynBuild Forest.ExplicitDynCheck.')
+
+
+def TL(items, ty):
+    """a Coq list literal whose type is known also when it is empty (a chunk of cases that all have an empty list in
+    one position would otherwise leave the element type undetermined: a Coq elaboration error, not a disagreement)"""
+    return L(items) if items else '(@nil (%s))' % ty
 
 
 def parse_logged_dyn(parser, text):
@@ -1893,7 +1900,7 @@ def coq_idcase(parser, lexer, text, code, log):
             continue
         seen.add(k)
         fams.append('(%s, (%s, %s, %s))' % (label(lb), rule_term[r], opt(l), opt(rt)))
-    nl = lambda xs: '(' + L(['%d' % x for x in sorted(xs)]) + ')%N'
+    nl = lambda xs: ('(' + L(['%d' % x for x in sorted(xs)]) + ')%N') if xs else '(@nil N)'
     # the position graph of the text, by re.fullmatch on slices (no reference to what the parser or its matcher did)
     import re
     pats = {td.name: re.compile(td.pattern.to_regexp()) for td in parser.terminals}
@@ -1903,5 +1910,5 @@ def coq_idcase(parser, lexer, text, code, log):
     ig = sorted({(i, j) for name in parser.ignore_tokens for i in range(n) for j in range(i + 1, n + 1)
                  if pats[name].fullmatch(text, i, j)})
     return '(%s, %d, %s, %d, %s, %s, %s, %d, %s, %s, %s)' % (
-        L(rules), nt('start'), L(['%d' % x for x in ign]), len(text), B(lexer == 'dynamic_complete'),
-        nl(mt), nl(tt), code, L(fams), L(te), L(['(%d, %d)' % p for p in ig]))
+        L(rules), nt('start'), TL(['%d' % x for x in ign], 'nat'), len(text), B(lexer == 'dynamic_complete'),
+        nl(mt), nl(tt), code, TL(fams, 'dfam'), TL(te, '(nat * nat * nat)'), TL(['(%d, %d)' % p for p in ig], '(nat * nat)'))
